@@ -293,8 +293,9 @@ def handle (tag : String) (args : List String) (obs : String) : String :=
           let fails := (if parOk then [] else ["concurrent-connections-interfere"]) ++
             (if isRst then [] else exchangeCheck reqs obsCalls (if tailLost then c.wire else wire) (_sched.startsWith "cut" || _sched.startsWith "busy")) ++
             (if files == "0" then [] else ["temp-file-left-behind"]) ++
-            -- the disk failed while an upload was saved (cache = 3): whatever is answered for it is a 5xx, never a 4xx (C20)
-            (if cache == "3" && (((ConnContract.responses (wire.length + 1) wire []).getD []).filter (·.code / 100 != 1)).any (·.code / 100 == 4)
+            -- the disk failed while an upload was saved (cache = 3) and the client sent everything it declared: whatever is
+            -- answered is a 5xx, never a 4xx (C20)
+            (if cache == "3" && !(reqs.any fun r => r.framing.startsWith "d" || r.framing.startsWith "f") && (((ConnContract.responses (wire.length + 1) wire []).getD []).filter (·.code / 100 != 1)).any (·.code / 100 == 4)
                then ["server-fault-answered-as-client-error"] else []) ++
             (if outlivedS != "" && obsGet obs "outlived" != some "0" then ["temp-file-outlives-its-request"] else []) ++
             (if _sched == "hold" && earlyS != "" && obsGet obs "early" != some (earlyS.drop 7).toString then
